@@ -79,6 +79,25 @@ Definition unify_st (s : st) (a b : term) : list st * bool :=
 
 Definition max_nxt (s : st) (l : list st) : nat := fold_left (fun m x => Nat.max m (nxt x)) l (nxt s).
 
+(* findall collects one instance of the template per answer.  The variables created while an answer was
+   computed (cells >= lo = the counter at the call) are different objects for different answers, although
+   the model reuses cell numbers in different branches of the search; the collected instances therefore
+   get these cells moved to pairwise disjoint fresh ranges [base_j, base_j + (nxt x_j - lo)), base_1 = lo. *)
+Fixpoint shift_term (lo d : nat) (t : term) : term :=
+  match t with
+  | TVar v => if Nat.leb lo v then TVar (v + d) else t
+  | TFun f args => TFun f (map (shift_term lo d) args)
+  | _ => t
+  end.
+
+Fixpoint collect (lo base : nat) (t : term) (xs : list st) : list term * nat :=
+  match xs with
+  | [] => ([], base)
+  | x :: r =>
+      let e := shift_term lo (base - lo) (den_fast (sto x) t) in
+      let '(es, b) := collect lo (base + (nxt x - lo)) t r in (e :: es, b)
+  end.
+
 (* the builtin predicates, over an arbitrary `call` (YP.query one level down) *)
 Section Builtins.
 Variable call : str -> list term -> st -> list st * bool.
@@ -110,8 +129,8 @@ Definition builtin (name : str) (args : list term) (s : st) : option (list st * 
     | [t; g; l] =>
         Some (let '(xs, e) := call_goal g [] s in
               if e then ([], true) else
-              let results := mk_list (map (fun x => den_fast (sto x) t) xs) in
-              unify_st {| sto := sto s; nxt := max_nxt s xs |} l results)
+              let '(es, b) := collect (nxt s) (nxt s) t xs in
+              unify_st {| sto := sto s; nxt := b |} l (mk_list es))
     | _ => None end
   else None.
 End Builtins.
